@@ -45,7 +45,7 @@ package subscribe
 //@ func (*Server).sendSubscribeResponse
 //@   props C07 C08 C05 C12
 //@   requires s != nil && RespWf(r) && ClientWf(c)
-//@   modifies ghost lastChecked, ghost lastVerdict, ghost aclChecks, ghost sends, ghost sendTimerArmed, ghost sendFailures
+//@   modifies ghost lastChecked, ghost lastVerdict, ghost aclChecks, ghost sends, ghost sendTimerArmed, ghost armedTimers, ghost sendFailures
 //@   ensures [one-send-at-most C07] sends == old(sends) || sends == old(sends) + 1
 //@   ensures [timer-disarmed-after C08 C05] !sendTimerArmed || (sends == old(sends) && sendTimerArmed == old(sendTimerArmed))
 //@   ensures [a-failed-send-is-reported C08] (sendFailures == old(sendFailures) || sendFailures == old(sendFailures) + 1) && (sendFailures != old(sendFailures) ==> res0 != nil)
@@ -136,7 +136,7 @@ package subscribe
 //@ func (*Server).sendStreamingResults
 //@   props C05 C07 C08 C14 C04 C12
 //@   requires s != nil && StreamClientWf(c) && SyncRespWf() && !tdelSeen
-//@   modifies ghost lastChecked, ghost lastVerdict, ghost aclChecks, ghost sends, ghost sendTimerArmed, ghost tdelSeen, ghost dequeues, ghost sendFailures, sends(c.errC)
+//@   modifies ghost lastChecked, ghost lastVerdict, ghost aclChecks, ghost sends, ghost sendTimerArmed, ghost armedTimers, ghost tdelSeen, ghost dequeues, ghost sendFailures, sends(c.errC)
 //@   invariant 0: [single-target-stream-ends-after-target-delete C14] !tdelSeen || c.target == "*"
 //@   invariant 0: [send-timeout-not-running-while-waiting-for-a-value C08] !sendTimerArmed
 //@   invariant 0: [a-failed-send-ends-the-stream C08] sendFailures == old(sendFailures) && sends(c.errC) == old(sends(c.errC))
